@@ -494,6 +494,44 @@ func c12(c *Ctx) {
 		if n == 0 {
 			c.R.Unknown(load.FuncName(gl)+": selector", c.pos(gl.Pos()), "MatchLabels of the revision selector not used")
 		}
+		// the selector restricts the listing itself: its labels are part of the List
+		// call's label options (the API server's exact-match selection), directly or
+		// copied entry by entry; a hand-written filter over the listed items is not
+		// the same relation
+		isSel := func(v ssa.Value) bool {
+			_, p, _ := flow.AccessPathC(v)
+			return strings.HasSuffix(p, "MatchLabels")
+		}
+		reaches := false
+		for _, lc := range calls(gl, clientList) {
+			for _, opt := range lc.Common().Args[2:] {
+				if flow.Default.Any(opt, isSel) {
+					reaches = true
+				}
+				// copied into the options map
+				for dst := range flow.Default.Back(opt) {
+					for _, x := range cfgx.Calls(gl, nil) {
+						nm := cfgx.CalleeName(x)
+						if i := strings.Index(nm, "["); i > 0 {
+							nm = nm[:i]
+						}
+						if nm == "maps.Copy" && len(x.Common().Args) == 2 && sole(x.Common().Args[0]) == sole(dst) && flow.Default.Any(x.Common().Args[1], isSel) {
+							reaches = true
+						}
+					}
+					for _, b := range gl.Blocks {
+						for _, in := range b.Instrs {
+							if mu, ok := in.(*ssa.MapUpdate); ok && sole(mu.Map) == sole(dst) && sameRange(mu.Key, mu.Value) {
+								if flow.Strict.Any(mu.Value, func(v ssa.Value) bool { rg, ok := v.(*ssa.Range); return ok && isSel(rg.X) }) {
+									reaches = true
+								}
+							}
+						}
+					}
+				}
+			}
+		}
+		c.R.Check(reaches, load.FuncName(gl)+": selector applied by the List", c.pos(gl.Pos()), "the selector's matchLabels are label options of the List call", "the revision selector's labels do not reach the List call's options: revisions are narrowed by other means than the API server's label selection")
 		// the composition-name label is always set
 		okName := false
 		for _, b := range gl.Blocks {
